@@ -11,7 +11,7 @@ class _RL(dict):
 UNIT_RLIMIT = _RL({"div_small": 80, "mul_redc": 80})      # unit -> --rlimit (Verus default is 10; 5x head-room over the measured maximum)
 UNIT_TIMEOUT = {"knuth": 1500, "addmul": 900}     # unit -> seconds
 UNIT_EXPECT = {       # unit -> minimum number of verified functions on the unchanged tree (vacuity guard)
-    "core": 31, "add": 29, "kernels": 79, "addmul": 71, "addmul_n": 73, "mul": 51, "div_small": 183, "knuth": 145, "mul_redc": 69, "basics": 22, "pow": 38, "divw": 54,
+    "core": 31, "add": 29, "kernels": 79, "addmul": 71, "addmul_n": 73, "mul": 51, "div_small": 183, "knuth": 145, "mul_redc": 69, "basics": 22, "pow": 38, "divw": 54, "modular": 51, "spigot": 44, "gcd": 21,
 }
 
 COMMON_TRUST = [
@@ -250,5 +250,44 @@ PROPS = {
         explanation="wf() = sized and top limb <= mask; every producer under contract ensures it; Kani asserts limbs[L-1] <= MASK after each public producer",
         trusted=COMMON_TRUST,
         not_decided=["ill-formed (BITS, LIMBS) types are rejected (compile-time outcome)", "producers outside the sweep (multi-limb division results, gcd, root, log, rand)"],
+    ),
+    "C09": dict(
+        level="proof",
+        level_text="Verus proves SpigotLittle::next (the step behind to_base_le / to_base_be) for all LIMBS, values and bases >= 2: None and unchanged state for zero, otherwise Some(value mod base) and the state "
+                   "becomes floor(value / base) - so the digit iterator yields exactly the base-b digits; Kani checks from_base_le/be, from_str_radix (alphabets, errors) and FromStr prefix sniffing at small widths with constant bases",
+        level_note="NOT decided: Display/Debug/LowerHex/UpperHex/Octal/Binary formatting (core::fmt machinery behind write!/pad_integral: neither verifier models it at feasible cost); from_base_* / from_str_radix only bounded "
+                   "(digit strings <= 4, constant bases, widths 8/16(/65)); to_base_be's Vec reversal is not separately proved",
+        technique="deductive contract (Verus, all widths/bases) for the digit step + Kani bounded contract harnesses for parsing",
+        units=["spigot"],
+        kani=dict(features=None, quick=hs("c09"), thorough=hs("c09"), bounds="see module header of kani/src/c09.rs"),
+        explanation="invariant of Knuth's algorithm S over the reversed limb iterator: processed high limbs hold the quotient, remainder < base",
+        trusted=COMMON_TRUST,
+        not_decided=["formatting traits (Display, Debug, LowerHex, UpperHex, Octal, Binary)", "from_base_le/be and from_str_radix beyond the stated bounds"],
+    ),
+    "C10": dict(
+        level="proof",
+        level_text="Verus proves reduce_mod, add_mod and pow_mod for every BITS/LIMBS and every modulus (0 for m = 0; pow_mod 0 for m <= 1): canonical residues in [0, m), "
+                   "add_mod without intermediate overflow (carry-out case), pow_mod by the square-and-multiply invariant modulo m",
+        level_note="ASSUMED: mul_mod's contract (= a*b mod m; its body reinterprets [[u64;2];LIMBS] through a raw pointer, outside Verus; the addmul and div kernels it calls are under contract); operators >=, %=, -=, >>= (C20); "
+                   "NOT decided by proof: inv_mod (Lehmer-based; Kani at 4/8 bits only)",
+        technique="deductive contracts (Verus, all widths) + Kani at tiny widths for mul_mod / inv_mod",
+        units=["core", "basics", "add", "modular"],
+        kani=dict(features=None, quick=hs("c10", None, r"gcd|lcm"), thorough=hs("c10", None, r"gcd|lcm"), bounds="tiny widths (4-8 bits), see kani/src/c10.rs"),
+        explanation="postconditions over val() with vstd's modular-arithmetic lemma library",
+        trusted=COMMON_TRUST,
+        not_decided=["mul_mod body (raw pointer reinterpretation)", "inv_mod beyond 8 bits"],
+    ),
+    "C12": dict(
+        level="other",
+        level_text="Verus proves the gcd loop (initial swap, Lehmer step via apply, Euclidean fallback a %= b; swap, termination by b) returns Euclid's function sgcd(a, b), and that sgcd is the greatest common divisor "
+                   "(divides both; every common divisor divides it) - modular over the ASSUMED contract of LehmerMatrix::from/apply, which is exactly the property's last sentence; Kani checks gcd/lcm/gcd_extended at 4-8 bits",
+        level_note="the Lehmer matrix construction (from_u64_prefix, from_u128_prefix, from: Jebelean's exactness conditions over up to 46 symbolic u64 divisions) is ASSUMED, not derived - a change inside matrix.rs is noticed only "
+                   "by the tiny-width Kani harnesses; gcd_extended's and inv_mod's sign bookkeeping and lcm are Kani-only (4-8 bits)",
+        technique="deductive contract for the loop (Verus) relative to an assumed matrix contract + Kani at tiny widths",
+        units=["core", "gcd"],
+        kani=dict(features=None, quick=hs("c10", r"gcd|lcm"), thorough=hs("c10", r"gcd|lcm"), bounds="4-8 bits"),
+        explanation="invariant gcd(a, b) = gcd(a0, b0), a >= b; decreases b",
+        trusted=COMMON_TRUST,
+        not_decided=["Lehmer matrix construction (matrix.rs)", "gcd_extended / inv_mod / lcm above 8 bits"],
     ),
 }
